@@ -212,7 +212,7 @@ def run_api(case, ctx):
     wrapk = lambda f, tag: monitors.Spy(f, tag, log2, fpk)
     try:
       wk, binary = build(case, wrapk)
-    except Exception as e:
+    except BaseException as e:
       if "INJECTED-FAULT" in str(e):
         continue   # an evaluation during construction (e.g. spline set-up) - nothing has been written yet
       raise
@@ -220,7 +220,7 @@ def run_api(case, ctx):
     try:
       wk(rfk)
       raised = False
-    except Exception as e:
+    except BaseException as e:
       raised = True   # any exception counts as "failed"; what matters is what had been written
     ctx.count("faults_injected")
     if not fpk.fired:
